@@ -568,12 +568,12 @@ func runC14(c *Ctx) {
 	c.check(cyc == "", "R14.d", "lock-order", "", fmt.Sprintf("%d nested acquisitions, no cycle", len(m.order)), "lock-order cycle: "+cyc)
 
 	ruleNoLockAcrossBlocking(c, m, "R14.f")
-	c.assume("mutexes are the only synchronisation used by the framework (no channels, no atomics): checked — any channel operation or sync/atomic use in redis/... is reported as undecided")
+	c.assume("an access pair is accepted only under a common mutex (or as an atomic operation); ordering through channels is not modelled, so accesses ordered only by a channel would be reported as a race, never missed")
 	for _, fn := range m.funcs {
 		allInstrs(fn, func(ins ssa.Instruction) {
 			switch x := ins.(type) {
 			case *ssa.Send, *ssa.Select:
-				c.undecided("R14.a", "other-sync/"+fnName(fn), c.P.instrPos(ins), "channel operation in the framework: happens-before through channels is not modelled")
+				c.note("channel operation in %s: not used as an ordering by the lockset verdict", fnName(fn))
 			case *ssa.Call:
 				if n := calleeName(x.Common()); strings.HasPrefix(n, "sync/atomic.") || strings.HasPrefix(n, "(*sync/atomic.") {
 					c.note("atomic operation %s in %s is treated as synchronised", n, fnName(fn))
@@ -602,7 +602,7 @@ func ruleNoLockAcrossBlocking(c *Ctx, m *syncModel, rid string) {
 				return
 			}
 			nme := calleeName(cc)
-			blocking := nameIn(nme, blockingReadNames...) || isConnWriteCall(cc) && !(cc.IsInvoke() && isLocalBuffer(cc.Value))
+			blocking := nameIn(nme, blockingReadNames...) || isConnWriteCallRaw(cc) && !(cc.IsInvoke() && isLocalBuffer(cc.Value))
 			if !blocking {
 				return
 			}
